@@ -10,7 +10,7 @@ PROOF_FILES = [f for f in ['proofs/FrameLib.v', 'proofs/C05Proofs.v'] if os.path
 
 
 def main(tier, seed):
-    return icheck.run(PROP, tier, seed, genchart.Profile(p_send=0.6, p_action=0.8, p_contract=0.05), ifam.ScenarioSpec(p_queue=0.5, p_clock=0.2, n_ops=(10, 28), p_mirror=0.3), icheck.interest_c05, PROOF_FILES, assumptions=['integer times and delays'])
+    return icheck.run(PROP, tier, seed, genchart.Profile(p_send=0.6, p_action=0.8, p_contract=0.05), ifam.ScenarioSpec(p_queue=0.5, p_clock=0.2, n_ops=(10, 28), p_mirror=0.45), icheck.interest_c05, PROOF_FILES, assumptions=['integer times and delays'])
 
 
 replay = icheck.replay
